@@ -516,3 +516,40 @@ def value_preserving(ed):
 
 def pkey(prog):
     return json.dumps(prog, sort_keys=True)
+
+
+# ---------------------------------------------------------------------------------- execution-log model (C02)
+
+def sim_log(prog, root, may_exec):
+    """Names of the functions that run when `root` is evaluated and the kept node at path p runs its body
+    only if may_exec(p) (otherwise it is served from the store and nothing below it runs)."""
+    log = []
+
+    def run_f(i, as_kept_path=None):
+        f = prog["funcs"][i]
+        if is_data(f):
+            if not may_exec(f["data"]):
+                return
+        log.append(f["name"])
+        run_body(f["body"])
+
+    def run_body(body):
+        for st in body:
+            k = st[0]
+            if k in ("call", "ho"):
+                run_f(st[1])
+            elif k == "keep":
+                if may_exec(st[1]):
+                    f = prog["funcs"][st[2]]
+                    log.append(f["name"])
+                    run_body(f["body"])
+            elif k == "cls":
+                log.append(prog["classes"][st[1]]["name"] + ".m")
+                run_body(prog["classes"][st[1]]["body"])
+
+    run_f(root)
+    return log
+
+
+def keep_sites_in(prog, fi):
+    return [st[1] for st in prog["funcs"][fi]["body"] if st[0] == "keep"]
